@@ -780,6 +780,7 @@ prev_release() {
 # files. All purged directories are written to stdout.
 purge() {
 	local _attic
+	local _builddir
 	local _d
 	local _dir
 	local _dry=0
@@ -800,8 +801,10 @@ purge() {
 	_attic="$(config_value keep-dir)"
 
 	# While not running, must compensate for current builddir not being
-	# excluded by robsd-ls.
-	if ! config_value builddir >/dev/null 2>&1; then
+	# excluded by robsd-ls. A stale lock naming a directory that is gone
+	# excludes nothing either.
+	_builddir="$(config_value builddir 2>/dev/null || :)"
+	if [ -z "${_builddir}" ] || ! [ -d "${_builddir}" ]; then
 		_n="$((_n + 1))"
 	fi
 
